@@ -26,6 +26,7 @@ RULE = (
     "rules (reflexivity, union order, union distribution); two-node strict graphs accept/reject accordingly. "
     "Non-trivial: a flaw was injected; distinct = (base shape, flaw class, position) resp. type pair."
     ' Directed: two producers that both run on one branch because one reads a name shared with the other branch (both gate kinds, both list orders); a route with three exclusive targets and a join below two of them.'
+    ' Also: explicit edges whose endpoints are node OBJECTS (members, non-members, stale pre-rename objects), flat and nested; strict mode: mapped nested inputs renamed before/after map_over or swapped with a broadcast input; two exclusive producers INSIDE a nested graph, the one under test listed first or second.'
 )
 ASSUMPTIONS = [
     "mistakes that the node constructors own (string 'END' target, emit/wait_for overlap) raise ValueError by documented contract and are not injected",
